@@ -14,19 +14,22 @@ variable {L K : Type} [DecidableEq L] [LabelOrd L]
 variable [Zero K] [One K] [Add K] [Mul K] [Neg K] [Sub K] [Inv K] [Div K] [DecidableEq K]
 
 /-- `node_matrix_element(i, j)` on the network without ideal voltage sources
-(node_analysis.py:21-25; `branches_connected_to`, `branches_between` of network.py) -/
+(node_analysis.py:21-25; `branches_connected_to`, `branches_between` of network.py).
+A branch whose two terminals are the same node (self-loop) is skipped by
+`admittance_connected_to` (node_analysis.py:12-13): it is electrically inert -/
 def Net.Yentry (N : Net L K) (i j : L) : K :=
-  if i = j then ((N.nonVS.filter (fun b => b.n1 = i ∨ b.n2 = i)).map (·.e.Yfin)).sum
+  if i = j then ((N.nonVS.filter (fun b => (b.n1 = i ∨ b.n2 = i) ∧ b.n1 ≠ b.n2)).map (·.e.Yfin)).sum
   else - ((N.nonVS.filter (fun b => (b.n1 = i ∧ b.n2 = j) ∨ (b.n1 = j ∧ b.n2 = i))).map (·.e.Yfin)).sum
 
-/-- `voltage_source_direction(vs, node)` (node_analysis.py:34-39) -/
+/-- `voltage_source_direction(vs, node)` (node_analysis.py:34-36): +1 at the first terminal
+minus 1 at the second one, so a self-loop source has direction 0 everywhere -/
 def Branch.dir (b : Branch L K) (n : L) : K :=
-  if b.n1 = n then 1 else if b.n2 = n then -1 else 0
+  (if b.n1 = n then 1 else 0) - (if b.n2 = n then 1 else 0)
 
-/-- entry of `source_incidence_matrix` (node_analysis.py:57-62): two guarded writes,
-the second one wins -/
+/-- entry of `source_incidence_matrix` (node_analysis.py:54-59): two guarded accumulating
+writes into a zero matrix (`-= 1` at the first terminal, `+= 1` at the second one) -/
 def Net.Qentry (N : Net L K) (b : Branch L K) (n : L) : K :=
-  if b.n2 = n ∧ b.n2 ≠ N.zero then 1 else if b.n1 = n ∧ b.n1 ≠ N.zero then -1 else 0
+  (if b.n2 = n ∧ b.n2 ≠ N.zero then 1 else 0) - (if b.n1 = n ∧ b.n1 ≠ N.zero then 1 else 0)
 
 /-- branches in the order of an id list (`network[id]` for each key of an index map) -/
 def Net.byIds (N : Net L K) (ids : List String) : List (Branch L K) :=
